@@ -199,7 +199,7 @@ def dns_oracle(case, obs):
         if isinstance(o, dict) and "panic" in o:
             out.append(("op %d %s panicked: %s" % (j, op, o["panic"]), None))
             continue
-        if op[0] in ("name", "host"):
+        if op[0] in ("name", "host", "lookup_many_times"):
             a = o[0]
             if op[1] in addr:
                 if addr[op[1]] != a:
@@ -251,7 +251,7 @@ class Spec(PropSpec):
     props_file = "C15.v"
     theorems = ["assign_sound", "assign_complete", "assign_first_free", "bind_in_use", "release_frees",
                 "c15_no_collision", "dns_stable", "dns_injective", "dns_guard_tight", "dns_reverse",
-                "dns_lookup_many_filter", "c15_consts", "c15_nonvacuous", "c15_shared_listener_port"]
+                "dns_lookup_many_filter", "dns_known_lookup_no_advance", "c15_consts", "c15_nonvacuous", "c15_shared_listener_port"]
     consts = CONSTS
     anchors = ANCHORS
     harness_bins = ["ports"]
@@ -261,7 +261,7 @@ class Spec(PropSpec):
             "drop / drop_half / crash+bounce commands on 1-3 hosts with an ephemeral range of 2-6 ports, every command polled once, "
             "plus structured histories with several streams accepted from one listener inside the range, the listener and some of them dropped, then a wrap-around; "
             "tables listed after every step; dns scripts = up to 600 names registered and looked up in random order by name, "
-            "literal, reverse and regex, IPv4 and IPv6, plus a 65537-name registration for the subnet-size guard; "
+            "literal, reverse and regex, IPv4 and IPv6, plus a 65537-name registration for the subnet-size guard and a deterministic family with ~65 536 repeated lookups of known names followed by late names; "
             "a ports case is non-trivial when the cursor wrapped (an ephemeral result not larger than the previous one) or a bind "
             "collided / the range was exhausted; distinct = distinct (config, script)")
     assumptions = [
@@ -284,6 +284,7 @@ class Spec(PropSpec):
         cases = ex + [F.gen_ports_script(ctx.rng) for _ in range(nports)]
         cases += [F.gen_accept_wrap_script(ctx.rng) for _ in range(nwrap * (2 if ctx.escalate else 1))]
         cases += [F.gen_dns_script(ctx.rng) for _ in range(ndns)]
+        cases += F.dns_repeat_cases()
         cases.append(F.dns_bulk_case(False, 65538, [0, 1, 255, 256, 65534, 65535, 65536, 65537]))
         if ctx.tier != "quick":
             cases.append(F.dns_bulk_case(True, 70000, [0, 1, 65535, 65536, 69999]))
